@@ -541,11 +541,9 @@ func (c *Ctx) freshRef(fr *Frame, elem types.Type, hint string) *Term {
 	}
 	r := FreshVar("new_"+hint, SRef)
 	c.assume(Not(Eq(r, BVLit(0, 64))))
-	c.assume(Not(Select(c.alive0, r)))
-	for _, o := range c.allocs {
-		c.assume(Not(Eq(r, o)))
-	}
-	c.allocs = append(c.allocs, r)
+	alive := fr.cur.get("alive", SArray(SRef, SBool))
+	c.assume(Not(Select(alive, r)))
+	fr.cur.set("alive", Store(alive, r, TTrue))
 	return r
 }
 
@@ -649,6 +647,7 @@ func (fr *Frame) typeAssert(x *ssa.TypeAssert) {
 	if _, isIface := x.AssertedType.Underlying().(*types.Interface); isIface {
 		// interface-to-interface: succeeds when non-nil (method sets not modelled)
 		ok := FreshVar("assert_ok", SBool)
+		c.assume(Implies(ok, nonNilIface(it)))
 		if x.CommaOk {
 			fr.vals[x] = Val{Tuple: []Val{{T: it, Dyn: v.Dyn, DynV: v.DynV}, {T: ok}}}
 		} else {
